@@ -130,6 +130,9 @@ HereDocs ==
      [c |-> 1, op |-> "<<",  w |-> "E\"O\"F", wm |-> <<"lit:E", "dq[", "lit:O", "]dq", "lit:F">>, body |-> "$v\n", bm |-> <<"lit:$v\n">>, dl |-> "EOF", dm |-> "lit:EOF"],
      [c |-> 1, op |-> "<<-", w |-> "E",      wm |-> <<"lit:E">>, body |-> "\tx\n", bm |-> <<"lit:\tx\n">>, dl |-> "\tE", dm |-> "lit:\tE"],
      [c |-> 1, op |-> "<<-", w |-> "E",      wm |-> <<"lit:E">>, body |-> "x\n",   bm |-> <<"lit:x\n">>,   dl |-> "E",   dm |-> "lit:E"],
+     \* look-alikes of the delimiter line: indented with blanks under <<-, indented with a tab under <<
+     [c |-> 1, op |-> "<<-", w |-> "E",      wm |-> <<"lit:E">>, body |-> "\tb\n  E\n \tE\n\tm\n", bm |-> <<"lit:\tb\n  E\n \tE\n\tm\n">>, dl |-> "\tE", dm |-> "lit:\tE"],
+     [c |-> 1, op |-> "<<",  w |-> "E",      wm |-> <<"lit:E">>, body |-> "\tE\nx\n", bm |-> <<"lit:\tE\nx\n">>, dl |-> "E", dm |-> "lit:E"],
      [c |-> 1, op |-> "<<-", w |-> "'E'",    wm |-> <<"sq[", "lit:E", "]sq">>, body |-> "\t\t$v\n\tE \n", bm |-> <<"lit:\t\t$v\n\tE \n">>, dl |-> "\t\tE", dm |-> "lit:\t\tE"] >>
 
 HereAlt(h, n) ==  \* n: "" or an IO number
@@ -143,6 +146,9 @@ ArithPool ==
   << [c |-> 0, t |-> "1 + 2",   m |-> <<"lit:1", "lit:+", "lit:2">>],
      [c |-> 1, t |-> "x<y",     m |-> <<"lit:x<y">>],
      [c |-> 1, t |-> "$v > (1)", m |-> <<"pe[", "name:v", "]pe", "lit:>", "lit:(1)">>],
+     \* a quotation directly behind other text of the expression
+     [c |-> 1, t |-> "x+\"$v\"",  m |-> <<"lit:x+", "dq[", "pe[", "name:v", "]pe", "]dq">>],
+     [c |-> 1, t |-> "1+'2'*\\3", m |-> <<"lit:1+", "sq[", "lit:2", "]sq", "lit:*", "bs:3">>],
      \* parts on several lines; the second line starts in column 1 or near the column where the first line ended
      \* (the printer decides on blanks between parts from their positions)
      [c |-> 1, t |-> "a -\n-b",       m |-> <<"lit:a", "lit:-", "lit:-b">>],
@@ -188,7 +194,8 @@ Alts(nt) ==
     \* ---------------------------------------------------------- here-document focus (C08)
     [] nt.n = "hd0" -> [i \in 1..Len(HereDocs) |-> [HereAlt(HereDocs[i], "") EXCEPT !.c = 0]]
                        \o << [HereAlt(HereDocs[5], "4") EXCEPT !.c = 0] >>
-    [] nt.n = "hd1" -> << [HereAlt(HereDocs[1], "") EXCEPT !.c = 0], [HereAlt(HereDocs[Len(HereDocs)], "") EXCEPT !.c = 0] >>
+    [] nt.n = "hd1" -> << [HereAlt(HereDocs[1], "") EXCEPT !.c = 0], [HereAlt(HereDocs[Len(HereDocs)], "") EXCEPT !.c = 0],
+                          [HereAlt(HereDocs[CHOOSE i \in 1..Len(HereDocs) : HereDocs[i].body = "\tb\n  E\n \tE\n\tm\n"], "") EXCEPT !.c = 0] >>
     [] nt.n \in {"hdprog", "hdlay"} ->   \* commands carrying 1-3 here-documents at every kind of redirection site
          \* (hdlay: the same sites with two pool entries only -- for the layout and stream checks)
          LET H    == NT(IF nt.n = "hdlay" THEN "hd1" ELSE "hd0", 1, FALSE, FALSE, FALSE, "")
